@@ -6,29 +6,6 @@ mod verif_demo_c14_xlsb_refs {
         let sheets = vec!["S0".to_string(), "S1".to_string()];
         parse_formula(tokens, &sheets, &[]).map_err(|e| e.to_string())
     }
-    // [MS-XLSB] 2.5.97.68 PtgRef = ptg, RgceLoc { row: u32, col: bits 0-13 column, bit 14 fColRel, bit 15 fRwRel }
-    #[test]
-    fn verif_demo_xlsb_ptgref_uniform_flags_ok() {
-        assert_eq!(pf(&[0x44, 2, 0, 0, 0, 1, 0xC0]).unwrap(), "B3");
-        assert_eq!(pf(&[0x44, 2, 0, 0, 0, 1, 0x00]).unwrap(), "$B$3");
-    }
-    #[test]
-    fn verif_demo_xlsb_ptgref_mixed_flags_swapped() {
-        assert_eq!(pf(&[0x44, 2, 0, 0, 0, 1, 0x80]).unwrap(), "B$3"); // fRwRel only: encodes $B3
-        assert_eq!(pf(&[0x44, 2, 0, 0, 0, 1, 0x40]).unwrap(), "$B3"); // fColRel only: encodes B$3
-    }
-    // PtgRef3d / PtgArea / PtgArea3d: always `$`, and the flag bits are not masked out of the column
-    #[test]
-    fn verif_demo_xlsb_ref3d_area_relative_flags_ignored_and_not_masked() {
-        assert_eq!(pf(&[0x3A, 1, 0, 2, 0, 0, 0, 1, 0xC0]).unwrap(), "S1!$BTRN$3"); // expected S1!B3
-        assert_eq!(pf(&[0x25, 0, 0, 0, 0, 1, 0, 0, 0, 0, 0xC0, 1, 0xC0]).unwrap(), "$BTRM$1:$BTRN$2"); // expected A1:B2
-        assert_eq!(pf(&[0x3B, 1, 0, 0, 0, 0, 0, 1, 0, 0, 0, 0, 0xC0, 1, 0xC0]).unwrap(), "S1!$BTRM$1:$BTRN$2"); // expected S1!A1:B2
-    }
-    #[test]
-    fn verif_demo_xlsb_absolute_area_ok() {
-        assert_eq!(pf(&[0x3A, 1, 0, 2, 0, 0, 0, 1, 0x00]).unwrap(), "S1!$B$3");
-        assert_eq!(pf(&[0x25, 0, 0, 0, 0, 1, 0, 0, 0, 0, 0, 1, 0]).unwrap(), "$A$1:$B$2");
-    }
     // PtgArray pushes a stack slot but no text; PtgExtend likewise: operands vanish from the rendering
     #[test]
     fn verif_demo_xlsb_ptgarray_operand_vanishes() {
